@@ -83,14 +83,15 @@ def rule_error_selection(ctx):
     where = ctx.where(f, fn.node)
     t = A.fn_text(fn)
     checks = [
-        ("explicit-filter", r"let explicit_fields=iter\.clone\(\)\.filter\(\|\(_,_,info\)\|matches!\(value\(info\),Some\(true\)\)\)", "explicit candidates are exactly the fields whose attribute value is `Some(true)`"),
-        ("inferred-filter", r"let inferred_fields=iter\.filter\(\|\(_,field,info\)\|match value\(info\)\{None=>is_valid_default_field_for_attr\(attr,field,len\),_=>false\}\)", "inferred candidates are the un-annotated (`None`) fields accepted by the layout's default predicate; `Some(false)` never qualifies"),
-        ("explicit-unique", r"let field=assert_iter_contains_zero_or_one_item\(explicit_fields,", "two explicit candidates are an error"),
-        ("precedence", r"let field=match field\{field@Some\(_\)=>field,None=>assert_iter_contains_zero_or_one_item\(inferred_fields,", "explicit beats inferred; two inferred candidates are an error"),
+        ("explicit-filter", ["let explicit=iter.clone().filter(|(_,_,info)|matches!(value(info),Some(true)))"], "explicit candidates are exactly the fields whose attribute value is `Some(true)`"),
+        ("inferred-filter", ["let inferred=iter.filter(|(_,field,info)|match value(info){None=>is_valid_default_field_for_attr(attr,field,len),_=>false})"], "inferred candidates are the un-annotated (`None`) fields accepted by the layout's default predicate; `Some(false)` never qualifies"),
+        ("explicit-unique", ["let field=assert_iter_contains_zero_or_one_item(explicit,"], "two explicit candidates are an error"),
+        ("precedence", ["let field=match field{field@Some(_)=>field,None=>assert_iter_contains_zero_or_one_item(inferred,"], "explicit beats inferred; two inferred candidates are an error"),
     ]
-    for key, rx, what in checks:
+    # the closures `value` / `is_valid_default_field_for_attr` are parameters: wildcarded like locals
+    for key, pats, what in checks:
         ctx.instance(f"parse_field_impl:{key}")
-        if not re.search(rx, t):
+        if not any(A.wsearch(t.replace("value(", "VALUE(").replace("is_valid_default_field_for_attr(", "DEFAULT("), p_.replace("value(", "VALUE(").replace("is_valid_default_field_for_attr(", "DEFAULT(")) for p_ in pats):
             ctx.report(f"errsel:{key}", where, f"`parse_field_impl` lost the rule: {what}", {"text": t[:500]})
     az = A.get_fn(ctx.files, ERR, "assert_iter_contains_zero_or_one_item")
     t = A.fn_text(az)
@@ -103,15 +104,15 @@ def rule_error_selection(ctx):
     pf = A.get_fn(ctx.files, ERR, "parse_fields")
     t = A.fn_text(pf)
     preds = [
-        ("named-source", r'"source"=>ident=="source"', "named: the field called `source`"),
-        ("named-backtrace", r'"backtrace"=>\{?ident=="backtrace"\|\|is_type_path_ends_with_segment\(&field\.ty,"Backtrace"\)', "named: the field called `backtrace` or Backtrace-typed"),
-        ("tuple-source", r'"source"=>\{?len==1&&!is_type_path_ends_with_segment\(&field\.ty,"Backtrace"\)', "tuple: the sole field, unless it is Backtrace-typed"),
-        ("tuple-backtrace", r'"backtrace"=>\{?is_type_path_ends_with_segment\(&field\.ty,"Backtrace"\)', "tuple: a Backtrace-typed field"),
-        ("two-field", r"parsed_fields\.source=parsed_fields\.source\.or_else\(\|\|\{?infer_source_field\(", "tuple: explicit/inferred source first, else the two-field inference"),
+        ("named-source", ['"source"=>ident=="source"'], "named: the field called `source`"),
+        ("named-backtrace", ['"backtrace"=>{ident=="backtrace"||is_type_path_ends_with_segment(&field.ty,"Backtrace")}', '"backtrace"=>ident=="backtrace"||is_type_path_ends_with_segment(&field.ty,"Backtrace")'], "named: the field called `backtrace` or Backtrace-typed"),
+        ("tuple-source", ['"source"=>{len==1&&!is_type_path_ends_with_segment(&field.ty,"Backtrace")}', '"source"=>len==1&&!is_type_path_ends_with_segment(&field.ty,"Backtrace")'], "tuple: the sole field, unless it is Backtrace-typed"),
+        ("tuple-backtrace", ['"backtrace"=>{is_type_path_ends_with_segment(&field.ty,"Backtrace")}', '"backtrace"=>is_type_path_ends_with_segment(&field.ty,"Backtrace")'], "tuple: a Backtrace-typed field"),
+        ("two-field", ["parsed.source=parsed.source.or_else(||infer_source_field("], "tuple: explicit/inferred source first, else the two-field inference"),
     ]
-    for key, rx, what in preds:
+    for key, pats, what in preds:
         ctx.instance(f"default:{key}")
-        if not re.search(rx, t):
+        if not any(A.wsearch(t, p_) for p_ in pats):
             ctx.report(f"errsel:default:{key}", ctx.where(f, pf.node), f"default source/backtrace inference changed ({what})", {})
     inf = A.get_fn(ctx.files, ERR, "infer_source_field")
     t = A.fn_text(inf)
